@@ -59,6 +59,14 @@ class DelegWorld(GraphWorld):
         return super().load_subscript(ip, obj, key, node)
 
     def compare(self, ip, a, sym, b, node):
+        if isinstance(a, NodeV) and isinstance(b, NodeV) and sym in ("<", "<=", ">", ">="):
+            # nothing is known about how two node ids compare: both orders are explored
+            if a.role == b.role:
+                return sym in ("<=", ">=")
+            lo, hi = sorted((a.role, b.role))
+            lt = self.choose(("node-order", lo, "<", hi))
+            a_lt_b = lt if a.role == lo else not lt
+            return a_lt_b if sym in ("<", "<=") else not a_lt_b
         if isinstance(a, Opaque) or isinstance(b, Opaque):
             self.nopaque += 1
             return self.choose(("opaque_compare", getattr(node, "lineno", 0), getattr(node, "col_offset", 0), self.nopaque))
